@@ -290,6 +290,7 @@ def nan_rule(P, R):
 
 
 def run(P, R, tier):
+    casekey_rule(P, R)
     R.undecided += [
         "(e) dump -> read -> dump is a textual fixed point (number formatting / precision)",
         "(f) follow-up results on the restored state equal those on the original (derived quantities recomputed on read)",
@@ -1248,3 +1249,64 @@ def litindex_rule(P, R):
         rec(g["body"], [])
     if n < 4:
         R.anchor_missing(RULE, "only %d literal subscripts of vector members in writers" % n)
+
+
+CASEKEY_COPIES = {
+    # functions that store under the name of an entry that is already stored somewhere (no text from the input involved)
+    "cxxPPassemblage::add": "the key is Get_name() of a component of the assemblage that is added (mixing of stored assemblages)",
+    "cxxPPassemblage::Deserialize": "the key comes from the dictionary of a serialised assemblage (a stored state)",
+}
+
+
+def casekey_rule(P, R):
+    """A pure-phase assemblage finds its components without regard to case (cxxPPassemblage::Find: strcmp_nocase over the keys of the
+    component map), and so does everything that saves results into it.  A store into that map under a name taken from the input must
+    therefore not create a second key that differs only in capitalisation: the reader removes such a key first (read.cpp: store_pp_comp),
+    the RAW / MODIFY reader stores a component it found under the name it already has.  Otherwise one phase has two components:
+    results are saved into one and the other keeps its initial amount (a mole of calcite lost on SAVE), DUMP prints the component twice
+    and the text no longer restores the state."""
+    RULE = "C10.casekey"
+    R.rule(RULE, "every store into the component map of a pure-phase assemblage keeps its keys unique without regard to case", minimum=4)
+    find = P.one("cxxPPassemblage::Find")
+    if not any(T.callee_name(c) == "strcmp_nocase" for c in T.calls(find["body"])):
+        R.anchor_missing(RULE, "cxxPPassemblage::Find is no longer case-insensitive: the rule's premise is gone")
+        return
+    n = 0
+    for k, g in sorted(P.functions.items(), key=lambda kv: (kv[1]["file"], kv[1]["line"])):
+        if not g.get("body"):
+            continue
+        for c in T.calls(g["body"]):
+            if T.callee_name(c) != "operator[]" or not c[4] or "cxxPPassemblageComp" not in str(c[2].get("ret", "")):
+                continue
+            n += 1
+            inst = "%s@%d" % (g["q"].split("::")[-1], c[1] - g["line"])
+            if g["q"] in CASEKEY_COPIES:
+                R.ok(RULE, inst, CASEKEY_COPIES[g["q"]])
+                continue
+            mp = "".join(T.text(c[4][0], -40).split())
+            key = T.strip_casts(c[4][1]) if len(c[4]) > 1 else None
+            # (a) the function erases keys that compare equal without regard to case before it stores
+            dedupe = any(T.callee_name(x) == "strcmp_nocase" for x in T.calls(g["body"])) and \
+                any(T.callee_name(x) == "erase" and T.call_obj(x) is not None and "".join(T.text(T.call_obj(x), -40).split()) == mp for x in T.calls(g["body"]))
+            # (b) the key variable is re-assigned from the name of the component that Find returned, on the path where one was found
+            renamed = False
+            if T.is_node(key) and key[0] == "Ref":
+                finds = [w for w in T.walk(g["body"]) if w[0] == "Decl" and any(d[2] is not None and any(T.callee_name(y) == "Find" for y in T.calls(d[2])) for d in w[2])]
+                fvars = {d[0] for w in finds for d in w[2]}
+                for w in T.walk(g["body"]):
+                    if w[0] == "If" and any(y[0] == "Ref" and y[3] in fvars for y in T.walk(w[2])):
+                        for t, how, line, a in T.writes(w[3]):
+                            t2 = T.strip_casts(t)
+                            if T.is_node(t2) and t2[0] == "Ref" and t2[3] == key[3] and line < c[1] and any(
+                                    T.callee_name(y) == "Get_name" and any(z[0] == "Ref" and z[3] in fvars for z in T.walk(y)) for y in T.calls(a)):
+                                renamed = True
+            if dedupe:
+                R.ok(RULE, inst, "keys equal without regard to case are erased first")
+            elif renamed:
+                R.ok(RULE, inst, "a component that Find returned is stored under the name it has")
+            else:
+                R.violation(RULE, inst, "%s stores a component under `%s` without making the key unique without regard to case, while Find and the save functions match "
+                            "case-insensitively: `Calcite` and `calcite` become two components of one phase" % (g["q"], T.text(c[4][1])[:40] if len(c[4]) > 1 else "?"),
+                            file=g["file"], line=c[1], function=g["q"])
+    if n < 4:
+        R.anchor_missing(RULE, "only %d stores into a pure-phase component map found" % n)
